@@ -350,10 +350,11 @@ class Run:
                         import traceback
 
                         tb = traceback.extract_tb(e.__traceback__)
-                        if tb and "/src/cascade/" in tb[-1].filename:
+                        lib = [f for f in tb if "/src/cascade/" in f.filename]
+                        if lib:  # the exception came out of (or through) the library: e.g. a granted get whose segment does not exist
                             alive = self.server_alive()
                             self.breach("C09", "client-call-raises" if alive else "server-died",
-                                        f"thread {ti}: {op}: the client call raised {e!r} at {tb[-1].name} "
+                                        f"thread {ti}: {op}: the client call raised {e!r} at {lib[-1].name} "
                                         f"({'the server process is alive' if alive else 'the server process has ended'})")
                             raise _Abort()
                         raise
